@@ -75,7 +75,7 @@ def prove(mod, ctx):
     thms = [t for t in common.theorems_in(os.path.join(d, pf))]
     res["theorems"] = thms
     res["obligations"] = len(thms)
-    forb = common.forbidden_scan()
+    forb = common.forbidden_scan(pf)
     if forb:
         res["errors"].append("forbidden construct in development: " + "; ".join(forb[:10]))
     deps = list(getattr(mod, "COQ_DEPS", []))
